@@ -17,7 +17,12 @@ ELLS = {
     # Earth-like corners for the geodesic properties (1/f in [280, 320])
     'g63_280': gc.Ellipsoid(6.3e6, 280.0), 'g63_320': gc.Ellipsoid(6.3e6, 320.0),
     'g64_280': gc.Ellipsoid(6.4e6, 280.0), 'g64_320': gc.Ellipsoid(6.4e6, 320.0),
+    # near-twins of shipped ellipsoids (a re-estimated axis, a flattening quoted to fewer digits): a few millimetres / a few 1e-7 away,
+    # so that 'equal within a tolerance' is not 'the same ellipsoid'
+    'grs80_a3mm': gc.Ellipsoid(6378137.003, 298.257222101), 'grs80_f2e7': gc.Ellipsoid(6378137.0, 298.2572223),
+    'ans_a5mm': gc.Ellipsoid(6378160.005, 298.25), 'wgs84_f3e7': gc.Ellipsoid(6378137.0, 298.257223863),
 }
+TWINS = ['grs80_a3mm', 'grs80_f2e7', 'ans_a5mm', 'wgs84_f3e7']
 ELL_AF = {k: (float(v.semimaj), float(v.inversef)) for k, v in ELLS.items()}
 # Published defining values of the shipped ellipsoids (EPSG 7019, 7030, 7003, 7022) and projections (UTM; NSW ISG technical
 # manual).  The oracles use THESE numbers, not the ones stored in the library objects, so a mistyped constant is a
@@ -28,7 +33,7 @@ PUBLISHED_PRJ = {'utm': (500000.0, 10000000.0, 0.9996, 6.0, -177.0), 'isg': (300
 ELL_AF.update(PUBLISHED_ELL)
 SHIPPED = ['grs80', 'wgs84', 'ans', 'intl24']
 E9 = SHIPPED + ['e63_150', 'e63_400', 'e64_150', 'e64_400', 'e635_275']
-G8 = SHIPPED + ['g63_280', 'g63_320', 'g64_280', 'g64_320']
+G8 = SHIPPED + ['g63_280', 'g63_320', 'g64_280', 'g64_320', 'grs80_a3mm']
 
 def ell_obj(name):
     """the ellipsoid object for a case: shipped ones are the shipped constants; arbitrary ones are built FRESH for every use
@@ -76,7 +81,7 @@ ISG_CM = {541: 139.0, 542: 141.0, 543: 143.0, 551: 145.0, 552: 147.0, 553: 149.0
 # (ellipsoid, projection) configurations for the TM properties
 TM_CONFIGS = ([(e, 'utm') for e in E9] + [('ans', 'isg'), ('grs80', 'isg')] +
               [('grs80', 'p0'), ('e64_400', 'p0'), ('grs80', 'p1'), ('e63_150', 'p1'), ('intl24', 'p2'), ('e635_275', 'p2'),
-               ('wgs84', 'p3'), ('ans', 'p4'), ('grs80', 'p5'), ('intl24', 'p6'), ('ans', 'isg2'), ('wgs84', 'p7'), ('grs80', 'p8')])
+               ('wgs84', 'p3'), ('ans', 'p4'), ('grs80', 'p5'), ('intl24', 'p6'), ('ans', 'isg2'), ('wgs84', 'p7'), ('grs80', 'p8'), ('grs80_a3mm', 'utm')])
 
 
 def n_zones(prj):
